@@ -191,7 +191,7 @@ func (s *Session) handleRCPT(args string) error {
 
 		allowed := false
 		for _, allowedDomain := range s.config.Delivery.AllowedDomains {
-			if domain == allowedDomain {
+			if strings.EqualFold(domain, allowedDomain) {
 				allowed = true
 				break
 			}
@@ -380,6 +380,18 @@ func (s *Session) parseRcptTo(args string) (string, error) {
 	// Remove angle brackets if present
 	args = strings.TrimPrefix(args, "<")
 	args = strings.TrimSuffix(args, ">")
+
+	// The domain of an address is case-insensitive (RFC 5321 section 2.4): keep one spelling of it,
+	// so that user@Example.COM passes the same checks and is filed in the same store as user@example.com
+	if at := strings.LastIndexByte(args, '@'); at >= 0 {
+		domain := []byte(args[at+1:])
+		for i, c := range domain {
+			if c >= 'A' && c <= 'Z' {
+				domain[i] = c + ('a' - 'A')
+			}
+		}
+		args = args[:at+1] + string(domain)
+	}
 
 	return args, nil
 }
